@@ -7,7 +7,7 @@ PROP = dict(
     cases=dict(quick=1300, thorough=9000),
     level="proof",
     harness_timeout=2400,
-    coqc_timeout=1500,
+    coqc_timeout=6000,
     rule="same generator as C03 (incl. the large structured inputs with n >= 8192 and the huge-magnitude families) biased towards clustered / one-outlier / duplicate point sets, iter_count 1..6; "
          "distinct = distinct (algorithm, dimension, iter_count, tolerance bits, points, weights, partition length); "
          "non-trivial = well-formed, at least 3 points and iter_count >= 1",
@@ -24,8 +24,8 @@ PROP = dict(
     assumptions=[
         "coordinates are finite f64 whose binary32 image is finite (beyond the binary32 range the code at HEAD keeps every point of the axis "
         "on one side: no balance claim there, only `returns a bisection tree, no hang/panic`); weights are non-negative integers whose sum is below 2^53",
-        "box_ok32 (the root box, f64 min/max then `as f32`, encloses the binary32 coordinates) is a decidable premise evaluated on every "
-        "in-contract case by Run/RunC04.v (a false would count as a correspondence failure)",
+        "the former premise box_ok32 (the root box, f64 min/max then `as f32`, has finite canonical bounds enclosing the binary32 coordinates) "
+        "is proved from the contract (box_ok32_holds, Proofs/RcbBox.v) and still evaluated on every in-contract case as a cross-check",
     ],
 )
 
@@ -37,6 +37,6 @@ MANIFEST = dict(
          "every implementation output; model and implementation are compared on generated inputs (exact ids).",
     design_ref="DESIGN.md §7 C04",
     note="Trusted: Coq kernel; differential run; SpecFloat = hardware binary32/64. The instance theorem uses the standard "
-         "real-number axioms through Flocq; box_ok32 is a decidable premise evaluated on every case.",
+         "real-number axioms through Flocq; no premise beyond the contract is left (box_ok32 is proved; the run glue keeps it as a cross-check).",
     technique="Coq proof (loop invariant) + refutation witnesses by vm_compute + model/implementation correspondence + certified checker",
 )
